@@ -867,10 +867,14 @@ func sliceValidatedBefore(slice ssa.Value, at ssa.Instruction) bool {
 	ok := false
 	Instrs(fn, func(b *ssa.BasicBlock, _ int, ins ssa.Instruction) {
 		bo, isB := ins.(*ssa.BinOp)
-		if !isB || (bo.Op != token.EQL && bo.Op != token.NEQ) || !IsNilConst(bo.Y) {
+		if !isB || (bo.Op != token.EQL && bo.Op != token.NEQ) {
 			return
 		}
-		ld, isLd := bo.X.(*ssa.UnOp)
+		_, cx, cy, _ := BinCmp(bo)
+		if !IsNilConst(cy) {
+			return
+		}
+		ld, isLd := cx.(*ssa.UnOp)
 		if !isLd || ld.Op != token.MUL {
 			return
 		}
